@@ -102,6 +102,9 @@ def generate(rng, i, tier):
         "members": members,
         "method": rng.choice(["standalone"] + ops.METHODS * 2),
         "policy": rng.choice([["collect"], ["collect", "fail"], ["fail"], ["collect", "print"], ["collect", "fail", "print", "quiet"], ["collect", "stop"], ["collect", "fail", "stop"]]),
+        # an earlier run of ANOTHER group on the same instance in which a member executed a cross-path signal:
+        # nothing of it may leak into the verdicts of the run under test
+        "prelude": {"method": rng.choice(ops.METHODS), "signal": rng.choice(["fail_all()", "fail_all()", "stop_all()", "skip_all()", "advance_all(2)"])} if rng.random() < 0.2 else None,
     }
 
 
@@ -121,6 +124,8 @@ def reductions(sc):
             yield with_(sc, blanks=[])
         for l in sc["planted"]:
             yield with_(sc, planted=[x for x in sc["planted"] if x != l])
+    if sc.get("prelude"):
+        yield with_(sc, prelude=None)
     if sc["method"] not in ("standalone", "collect_paths"):
         yield with_(sc, method="collect_paths")
 
@@ -228,6 +233,16 @@ def execute(sc):
             with ops.quiet():
                 cs.file_manager.add_named_file(name="f", path="src/f.csv")
                 cs.paths_manager.add_named_paths(name="g", paths=[member_text(m, j) for j, m in enumerate(members)])
+            pre = sc.get("prelude")
+            if pre:
+                with ops.quiet():
+                    cs.paths_manager.add_named_paths(name="p", paths=[f"~id:p0~ $[*][ line_number() == 1 -> {pre['signal']} ]", "~id:p1~ $[*][ yes() ]"])
+                extfuncs.arm()
+                ops.run_group(cs, pre["method"], "p")
+                out.runs += 1
+                out.fault("instance_reuse")
+                out.probe("run after an earlier run that used a cross-path signal on the same instance")
+                extfuncs.arm(plan=plan, monitor=monitor)
             seen = {"n": 0}
 
             def on_yield(line):
@@ -333,6 +348,7 @@ def execute(sc):
         out.nontrivial = fired
         out.extra["online_checks"] = online["checks"]
         out.extra["manager_polls_midrun"] = online.get("mgr_polls", 0)
+        out.probe("run after an earlier run that used a cross-path signal on the same instance", False)
         out.probe("verdict event on the last line", "last" in pos)
         out.probe("group with both valid and failed members", k > 1 and len(set(wants)) == 2)
         out.log([list(e) for e in exp], [ops.path_state(g["cp"]) for g in got], mgr_valid, len(out.violations))
